@@ -67,8 +67,51 @@ func c14Model_ParseAnyMeta(buf []byte) (any, error) {
 	return &c14Meta{len(buf)}, nil
 }
 
+// c14TxMetaBox — the far side of the quantification box through the server-side callers: the
+// transaction bytes and the metadata are both large well-formed payloads in the same epoch.
+//
+//	1: 60 frames fan-out 1 (depth 59) + 60 frames fan-out 10      2: 60 frames linked by the head alone + 35 frames fan-out 2, reversed
+//	3: `bytes` (200 KiB) in 60 frames fan-out 5 + 200 KiB in 1 frame
+func c14TxMetaBox(which int) {
+	small := func(k int) int { return 1 + k%2 }
+	var pA, pB *c14Payload
+	switch which {
+	case 1:
+		pA = c14HubChain(60, 1, false, 0, small, false)
+		pB = c14HubChain(60, 10, false, 64, small, true)
+	case 2:
+		pA = c14HubChain(60, 60, true, 0, small, true)
+		pB = c14HubChain(35, 2, true, 64, small, false)
+	default:
+		total := verifParam("bytes", 204800)
+		pA = c14HubChain(60, 5, false, 0, func(k int) int { return total / 60 }, false)
+		pB = c14HubChain(1, 1, false, 64, func(k int) int { return total }, false)
+	}
+	st := &c14Store{missing: -1}
+	st.add(pB)
+	st.add(pA)
+	c14Epoch = st
+	c14FrameTable = st.frames
+	node := &ipldbindcode.Transaction{Kind: int(iplddecoders.KindTransaction), Slot: 5, Data: *pA.frames[0], Metadata: *pB.frames[0]}
+	ep := &Epoch{}
+	txb, metab, err := getTransactionAndMetaFromNode(node, ep.GetDataFrameByCid)
+	verifAssert(err == nil, "C14.txmeta: large well-formed transaction rejected by getTransactionAndMetaFromNode")
+	verifAssert(bytes.Equal(txb, pA.orig), "C14.txmeta: large transaction payload differs from the original")
+	verifAssert(bytes.Equal(metab, pB.orig), "C14.txmeta: large metadata payload differs from the original")
+	_, meta, err := parseTransactionAndMetaFromNode(node, ep.GetDataFrameByCid)
+	verifAssert(err == nil && meta != nil, "C14.txmeta: large well-formed transaction rejected by parseTransactionAndMetaFromNode")
+	verifAssert(len(c14TxSeen) == 1 && bytes.Equal(c14TxSeen[0], pA.orig), "C14.txmeta: large transaction payload handed to the decoder differs from the original")
+	verifAssert(len(c14MetaSeen) == 1 && bytes.Equal(c14MetaSeen[0], pB.orig), "C14.txmeta: large metadata payload handed to the parser differs from the original")
+	verifReach("box")
+	verifReach("end")
+}
+
 func VerifC14TxMeta() {
 	c14TxSeen, c14MetaSeen = nil, nil
+	if box := verifChoice("box", 1+verifParam("box", 3)); box > 0 {
+		c14TxMetaBox(box)
+		return
+	}
 	maxN := verifParam("N", 3)
 	nA := 1 + verifChoice("txFrames", maxN)
 	nB := 1 + verifChoice("metaFrames", maxN)
